@@ -366,6 +366,14 @@ func (in *Interp) zero(t types.Type) Value {
 		return &Slice{Nil: bdd.True, Len: in.C.Const(in.intWidth(), 0)}
 	case *types.Map:
 		return &Map{Nil: bdd.True}
+	case *types.Array:
+		if u.Len() <= maxArrayLeaves {
+			s := &Struct{}
+			for i := int64(0); i < u.Len(); i++ {
+				s.Fields = append(s.Fields, in.zero(u.Elem()))
+			}
+			return s
+		}
 	case *types.Signature:
 		return &FuncV{} // the nil function value
 	case *types.Chan:
